@@ -88,16 +88,15 @@ theorem offset_sound {i : Input} {al : AList} (w : ALwf i al) {ls : List Lookup}
   obtain ⟨L, hL, hat⟩ := attach_some h
   obtain ⟨hk, e, he, heg, cls, hcls, _, r, hr, hrm, comp, hcomp, t, ht, htc, hd⟩ := attachLookup_some hat
   -- the base side
-  obtain ⟨bA, htb, ⟨asb, hasb, hba⟩, hclass, hnum⟩ := build_lookups_ok i al L (hls L hL) e he _ comp hcomp t ht
+  obtain ⟨bA, htb, ⟨asb, hasb, hba⟩, hclass, hnum, hplain⟩ := build_lookups_ok i al L (hls L hL) e he _ comp hcomp t ht
   rw [heg] at hasb
   -- the mark side
   have hcls' : cls ∈ clsOf i al := hcls
-  obtain ⟨aM, ⟨asm, hasm, ham⟩, hmark, _, hcn, hrx, hry⟩ := clsOf_mem w hcls' hr
+  obtain ⟨aM, ⟨asm, hasm, ham⟩, hmark, _, hcn, hrx, hry, hsM⟩ := clsOf_mem w hcls' hr
   rw [hrm] at hasm
   -- same class ⇒ same key
   obtain ⟨hnm, hkne, n, _, hkey, hcn2⟩ := classOf_kmOf w hclass
-  have hsA := w.shape _ hasb bA.a hba
-  have hsM := w.shape _ hasm aM ham
+  have hsA := w.shape _ hasb bA.a hba hplain
   have hn : n = aM.name := by
     have : "MC" ++ n = "MC" ++ aM.name := by rw [← hcn2, ← hcn, ← htc, htb]
     exact (String.append_right_inj "MC").mp this
